@@ -612,6 +612,31 @@ class DocumentMapper:
                     return s.run
         return None
 
+    def get_insertion_point(self, index: int) -> Tuple[Optional[Run], bool]:
+        """
+        Returns (anchor_run, insert_before).
+        Text inserted at `index` goes after the real run that ends there (or the left half of the
+        run that contains it). If no real run ends at `index` - the offset is the first real
+        character of a paragraph, possibly behind virtual prefix text - the anchor is the first
+        real run starting at/after `index` in that same paragraph and the text goes before it.
+        """
+        if index == 0:
+            return self.get_insertion_anchor(index), True
+
+        preceding = [s for s in self.spans if s.end == index]
+        real_ends_here = bool(preceding and preceding[-1].run)
+        contained = any(s.run is not None and s.start < index < s.end for s in self.spans)
+        if not real_ends_here and not contained:
+            for s in self.spans:
+                if s.start < index:
+                    continue
+                if s.run is not None:
+                    return s.run, True
+                if s.text in ("\n\n", "\n", " | "):
+                    break  # left the paragraph without meeting a real run
+
+        return self.get_insertion_anchor(index), False
+
     def _split_run_at_index(self, run: Run, split_index: int) -> Tuple[Run, Run]:
         text = run.text
         left_text = text[:split_index]
